@@ -14,7 +14,6 @@ from __future__ import annotations
 
 import ast
 import re
-import unicodedata
 from typing import Iterator, List, Optional, Sequence, Set, Tuple
 
 try:  # Python >= 3.11
